@@ -42,6 +42,13 @@ func ConstantSuffix(regexString string) ([]byte, error) {
 	if err != nil {
 		return nil, err
 	}
+	for _, i := range p.Inst {
+		if i.Op == syntax.InstEmptyWidth {
+			// an assertion ($, \b, ...) looks at the data around the match. The suffix is used to
+			// cut the searched data right behind it, an assertion would then see a wrong end of data.
+			return nil, nil
+		}
+	}
 	evaluate := (func(s *[]byte, pos uint32, seen []uint32) error)(nil)
 	evaluate = func(s *[]byte, pos uint32, seen []uint32) error {
 		for {
